@@ -13,10 +13,10 @@ EXTENDS Integers, Sequences, FiniteSets, Fix
 
 ----------------------------------------------------------------------------
 (* (i) decision table.  Weight kinds: "none", "linear", "quadratic", "cubic", "array",   *)
-(* "unknown" (any other string), "scalar" (neither str nor iterable).                    *)
+(* "unknown" (any other string), "scalar" (neither str nor iterable), "badshape".         *)
 FitMethods == {"lsq", "wlsq"}
 GoodWeights == {"none", "linear", "quadratic", "cubic", "array"}
-BadWeights == {"unknown", "scalar"}
+BadWeights == {"unknown", "scalar", "badshape"}   \* badshape: an array that is not one weight per observation
 ParamNames == {"alpha", "beta", "delta"}
 
 (* what the fixed set alone decides *)
@@ -35,13 +35,21 @@ Outcomes(method, wk, F) ==
 (* (ii) discrete model.  An observation is a record [x, w, pn, pd]: value, weight,       *)
 (* plotting position pn/pd (0/0 = not yet ranked).                                       *)
 
-(* stable argsort: indices ordered by (value, index) *)
-ArgSort(d) ==
-    LET RECURSIVE Srt(_)
+(* argsort: indices ordered by (value, index); with array weights tied values are ordered  *)
+(* by their weight first (byw), so that which tied observation gets which plotting position *)
+(* does not depend on the order of the input (byw = FALSE: the deviation "ties in input     *)
+(* order")                                                                                   *)
+ArgSortK(xs, ws, byw) ==
+    LET Key(a, b) == \/ xs[a] < xs[b]
+                     \/ xs[a] = xs[b] /\ byw /\ ws[a] < ws[b]
+                     \/ xs[a] = xs[b] /\ (~byw \/ ws[a] = ws[b]) /\ a <= b
+        RECURSIVE Srt(_)
         Srt(S) == IF S = {} THEN <<>>
-                  ELSE LET m == CHOOSE a \in S : \A b \in S : d[a] < d[b] \/ (d[a] = d[b] /\ a <= b)
+                  ELSE LET m == CHOOSE a \in S : \A b \in S : Key(a, b)
                        IN <<m>> \o Srt(S \ {m})
-    IN Srt(1..Len(d))
+    IN Srt(1..Len(xs))
+ArgSortObs(s, wk, byw) ==
+    ArgSortK([i \in 1..Len(s) |-> s[i].x], [i \in 1..Len(s) |-> s[i].w], byw /\ wk = "array")
 
 Obs(d, w) == [i \in 1..Len(d) |-> [x |-> d[i], w |-> w[i], pn |-> 0, pd |-> 0]]
 
@@ -61,18 +69,18 @@ RankStep(s, posrule) ==
 DropZeroStep(s) == SelectSeq(s, LAMBDA t : t.x # 0)
 
 (* the whole pipeline; zerosfirst = TRUE models the deviation "zeros removed before ranking" *)
-Final(d, w, wk, cosort, zerosfirst, posrule) ==
+Final(d, w, wk, cosort, zerosfirst, posrule, byw) ==
     LET s0 == IF zerosfirst THEN DropZeroStep(Obs(d, w)) ELSE Obs(d, w)
-        ord == ArgSort([i \in 1..Len(s0) |-> s0[i].x])
+        ord == ArgSortObs(s0, wk, byw)
         s1 == SortStep(s0, ord)
         s2 == IF wk = "array" THEN CoSortStep(s1, ord, cosort) ELSE KeywordStep(s1, wk)
         s3 == RankStep(s2, posrule)
     IN DropZeroStep(s3)
 
 (* the state the code hands to the regression: sorted, weighted, ranked, zeros still there *)
-Ranked(d, w, wk, cosort, posrule) ==
+Ranked(d, w, wk, cosort, posrule, byw) ==
     LET s0 == Obs(d, w)
-        ord == ArgSort(d)
+        ord == ArgSortObs(s0, wk, byw)
         s1 == SortStep(s0, ord)
         s2 == IF wk = "array" THEN CoSortStep(s1, ord, cosort) ELSE KeywordStep(s1, wk)
     IN RankStep(s2, posrule)
@@ -99,19 +107,17 @@ WeightsTravel(f, d, w, W) ==
        Cardinality({i \in 1..Len(f) : f[i].x = v /\ f[i].w = u}) =
        Cardinality({j \in 1..Len(d) : d[j] = v /\ w[j] = u})
 
-(* two results are the same regression problem: same bag of (x, p, w).  If tied values    *)
-(* carry different weights the property does not say which tied rank goes with which     *)
-(* weight; then only the bags of (x, p) and (x, w) are determined.                       *)
-TieConsistent(d, w) == \A i, j \in 1..Len(d) : d[i] = d[j] => w[i] = w[j]
+(* two results are the same regression problem: the same bag of (x, p, w) triples.  This   *)
+(* holds for ALL array weights, tied values with different weights included: the tied      *)
+(* observations take their ranks in the order of their weights.                             *)
 BagEq(f, g, key(_)) ==
     /\ Len(f) = Len(g)
     /\ \A i \in 1..Len(f) :
          Cardinality({k \in 1..Len(f) : key(f[k]) = key(f[i])}) =
          Cardinality({k \in 1..Len(g) : key(g[k]) = key(f[i])})
-SameProblem(f, g, tc) ==
-    /\ BagEq(f, g, LAMBDA t : <<t.x, t.pn, t.pd>>)
-    /\ BagEq(f, g, LAMBDA t : <<t.x, t.w>>)
-    /\ (tc => BagEq(f, g, LAMBDA t : <<t.x, t.pn, t.pd, t.w>>))
+SameProblem(f, g) == BagEq(f, g, LAMBDA t : <<t.x, t.pn, t.pd, t.w>>)
+(* among tied observations the weights ascend with the plotting position *)
+TiesByWeight(f) == \A i \in 1..(Len(f) - 1) : f[i].x = f[i + 1].x => f[i].w <= f[i + 1].w
 
 Permute(s, pi) == [i \in 1..Len(s) |-> s[pi[i]]]
 Perms(n) == {f \in [1..n -> 1..n] : \A i, j \in 1..n : i # j => f[i] # f[j]}
@@ -136,21 +142,22 @@ DeltaClose(dd, dq) == dd <= 500 + (dq \div 10000)
 (* optimiser's uncertainty); em / ep = (E(delta -+ h) - E(delta)) / E(delta) x 10^12,      *)
 (* 1e-9 slack for the round-off of E.                                                      *)
 (* which metamorphic variants a law record must contain (coverage of the laws) *)
-RequiredVariants(wk, haszeros) ==
-    {"perm"} \cup (IF haszeros THEN {"zeroweights"} ELSE {})
+RequiredVariants(wk, haszeros, isint) ==
+    {"perm"} \cup (IF haszeros THEN {"zeroweights"} ELSE {}) \cup (IF isint THEN {"intdtype"} ELSE {})
              \cup (IF wk = "array" THEN {"scaled"} ELSE IF wk = "none" THEN {"ones"} ELSE {"kwarray"})
 (* (a delta beyond the fixed-point range, 2000, is clamped by the driver: no step check)    *)
 StepOk(hq, dq) == dq >= 2000000000 \/ Abs(hq - ((dq \div 1000) + 500)) <= 1
 LocalMin(em, ep) == em >= -1000 /\ ep >= -1000
-(* For samples with a bounded upper tail the error has no minimiser: it decreases          *)
-(* monotonically to its infimum as delta -> 0 (checked with a log-space evaluation down to *)
-(* delta = 1e-6), and the optimiser stops where p_1^(1/delta) leaves the double range      *)
-(* (< 1e-308).  There E(delta - h) is not representable and only the other side can be     *)
-(* judged.  emdef / epdef = the neighbour's error, evaluated with the cancellation-free    *)
-(* log1p form, is finite; a stop at a NaN produced by an inaccurate formula (1 - q for      *)
-(* q < 1e-16) is still a violation because the reference then evaluates the neighbour.     *)
-LocalMinD(em, ep, emdef, epdef) ==
-    /\ (emdef \/ epdef)
-    /\ (emdef => em >= -1000)
-    /\ (epdef => ep >= -1000)
+(* The error need not have a minimiser: for bounded-tail samples it decreases monotonically  *)
+(* to its infimum as delta -> 0, for some heavy-tailed small samples as delta -> infinity   *)
+(* (evaluated in log space down to 1e-6 / up to 1e28), and fmin then runs away until its     *)
+(* iteration limit.  A returned delta outside [1e-3, 1e3] (the range of the fixed-delta      *)
+(* classes) is such a runaway; there only the INWARD neighbour can be required not to be     *)
+(* better.  Inside the range the condition is two-sided and both neighbours must be finite  *)
+(* (emdef / epdef; the reference evaluates the linearised positions in log space, so a stop *)
+(* at an underflow or cancellation cliff of the implementation is a violation).             *)
+LocalMinD(em, ep, emdef, epdef, dq) ==
+    IF dq < 1000 THEN epdef /\ ep >= -1000
+    ELSE IF dq > 1000000000 THEN emdef /\ em >= -1000
+    ELSE emdef /\ epdef /\ em >= -1000 /\ ep >= -1000
 =============================================================================
